@@ -137,7 +137,7 @@ class Driver:
     def __init__(self):
         self.calls = 0
 
-    def batch(self, items, timeout=600):
+    def batch(self, items, timeout=300):
         """items: iterable of (prop, op, tree_text) -> list of parsed answers."""
         from enc import parse
 
